@@ -128,7 +128,7 @@ const (
 	fSPKI
 )
 
-func (p parts) field(i int) []byte     { return p.pre[p.verOff()+i] }
+func (p parts) field(i int) []byte        { return p.pre[p.verOff()+i] }
 func (p *parts) setField(i int, b []byte) { p.pre[p.verOff()+i] = b }
 
 func splitTBS(tbs []byte) (p parts, ok bool) {
@@ -546,11 +546,12 @@ func mkAuthority(t *testing.T, r *verifkit.Rand, name string, sgn signer, parent
 // ----------------------------------------------------------------------------- the run
 
 type runner struct {
-	t   *testing.T
-	out *verifkit.Out
-	r   *verifkit.Rand
-	k   *keyring
-	n   int
+	akiCache map[string]*authority
+	t        *testing.T
+	out      *verifkit.Out
+	r        *verifkit.Rand
+	k        *keyring
+	n        int
 }
 
 func h(b []byte) string { return verifkit.Hex(b) }
@@ -977,6 +978,25 @@ func (x *runner) preIssuerCase(root, pi *authority, rootSKI, piSKI bool) {
 		x.out.Count("class:preissuer-aki-critical")
 	}
 	cls := fmt.Sprintf("class:preissuer-aki-pre%v-final%v", piSKI, rootSKI)
+	if rootSKI {
+		// the pre-issuer's own authority key id in each RFC 5280 4.2.1.1 form; the real CA writes that same value into the final certificate
+		form := []string{"keyid", "full", "issuer-serial"}[r.Intn(3)]
+		pi = x.akiForm(pi, root, form)
+		k := findExt(bf.exts, oidAKI)
+		if pi == nil || k < 0 {
+			x.out.Fail("gen", "cannot rewrite the authority key id ("+form+")")
+			return
+		}
+		var v []byte
+		for _, e := range pi.parsed.Extensions {
+			if e.Id.Equal(x509.OIDExtensionAuthorityKeyId) {
+				v = e.Value
+			}
+		}
+		_, crit := readCrit(bf.exts[k])
+		bf.exts[k] = mkExt(oidAKI, crit, v)
+		cls += "-" + form
+	}
 	x.out.Count(cls)
 	atEnd := false
 	if !piSKI && rootSKI {
@@ -1003,6 +1023,66 @@ func (x *runner) preIssuerCase(root, pi *authority, rootSKI, piSKI bool) {
 		x.opBuild(pre, pi.parsed, x.opCanon(pre))
 		x.out.Count("class:preissuer-two-akis")
 	}
+}
+
+// readCrit reports whether a raw Extension carries critical TRUE.
+func readCrit(raw []byte) ([]byte, bool) {
+	_, v, _, _, _ := readTLV(raw)
+	fs, _ := splitAll(v)
+	return raw, len(fs) == 3 && bytes.Equal(fs[1], []byte{1, 1, 0xff})
+}
+
+// akiForm returns the pre-issuer with its authorityKeyIdentifier extension rewritten into the given form and re-signed by the root:
+// "keyid" (as issued), "full" = keyIdentifier + authorityCertIssuer + authorityCertSerialNumber, "issuer-serial" = the latter two only.
+func (x *runner) akiForm(pi, root *authority, form string) *authority {
+	if form == "keyid" {
+		return pi
+	}
+	key := fmt.Sprintf("%p/%s", pi, form)
+	if x.akiCache == nil {
+		x.akiCache = map[string]*authority{}
+	}
+	if a, ok := x.akiCache[key]; ok {
+		return a
+	}
+	c, err := stdx509.ParseCertificate(pi.der)
+	if err != nil {
+		return nil
+	}
+	p, ok := splitTBS(c.RawTBSCertificate)
+	k := findExt(p.exts, oidAKI)
+	if !ok || k < 0 {
+		return nil
+	}
+	_, akiSeq, _, _, _ := readTLV(extValue(p.exts[k]))
+	kid, _ := splitAll(akiSeq) // [0] keyIdentifier as written by the library
+	rc, _ := stdx509.ParseCertificate(root.der)
+	issuer := mk(0xa1, mk(0xa4, rc.RawSubject))
+	sb := rc.SerialNumber.Bytes()
+	if len(sb) == 0 || sb[0]&0x80 != 0 {
+		sb = append([]byte{0}, sb...)
+	}
+	serial := mk(0x82, sb)
+	var val []byte
+	if form == "full" {
+		val = mk(0x30, kid[0], issuer, serial)
+	} else {
+		val = mk(0x30, issuer, serial)
+	}
+	q := p.clone()
+	q.exts[k] = mkExt(oidAKI, false, val)
+	der, err := signTBS(q.assemble(), root.sgn.key)
+	if err != nil {
+		return nil
+	}
+	a := *pi
+	a.der = der
+	a.parsed, err = x509.ParseCertificate(der)
+	if a.parsed == nil || x509.IsFatal(err) {
+		return nil
+	}
+	x.akiCache[key] = &a
+	return &a
 }
 
 func (x *runner) preRoutes(bp, bf parts, root, pi *authority, cls string, expectEqual bool) {
